@@ -15,15 +15,18 @@ CASE_TIMEOUT = 60  # seconds per case; a timed-out case is counted as skipped (s
 RULE = (
     "Hypothesis generates circuits on 1..5 qubits restricted, per exporter, to the gates that exporter handles (qiskit: X Y Z H S T P CX CZ "
     "CP CCX MCX MCZ mctrl(X) SWAP barrier; cirq: the same without P; sympy: X H CX SWAP CCX MCX barrier on <=4 qubits; QASM 2/3: all), plus compiled "
-    "generated functions (aliased / dotted / re-defined qubit names); every target {qiskit, cirq, sympy} x {circuit, gate} and QASM "
+    "generated functions (aliased / dotted / re-defined qubit names) and circuits whose name table was edited through qc[name]=i / del qc[name] "
+    "(aliases, default names on other indices, nameless qubits); every target {qiskit, cirq, sympy} x {circuit, gate} and QASM "
     "{2,3} x {circuit, gate} is exported and compared with the reference unitary (numpy dense simulation, little-endian; cirq after index "
     "bit-reversal), QASM through a reader of the emitted dialect (one formal per qubit in index order, same ops / qubits / parameters). "
+    "Enumerated part: every gate kind x every ordered qubit choice on arity..arity+1 (<=4) qubits after a layer of H, for every target (a refusal of a "
+    "gate outside the exporter's declared set is a clean rejection, an accepted export must be right). "
     "Non-trivial = >=1 multi-controlled or parameterised gate or aliased names, and >=2 qubits touched; distinct by canonical JSON of (circuit, target)"
 )
 ASSUMPTIONS = [
     "qiskit Operator, cirq.unitary and sympy represent are the meaning of their own objects",
     "the QASM dialect emitted by the library (space separated formals, one op per line, 2-decimal parameters) is the contract; parameters are compared within 0.005",
-    "an exception for a gate outside an exporter's declared set is a clean rejection (not generated)",
+    "an exception for a gate outside an exporter's declared set is a clean rejection; one sympy/cirq case in five draws from the full gate list, and an export that is accepted must be right",
     "qutip and pennylane exporters cannot be imported in this sandbox and are not claimed",
 ]
 
@@ -53,7 +56,12 @@ def case(draw):
         prog = draw(gen_prog.program(cfg))
         return {"kind": "compiled", "prog": prog, "opt": draw(st.sampled_from(["default", "fast"])), "fw": fw, "mode": mode}
     maxq = 4 if base == "sympy" else 5
-    circ = draw(gen_circ.general_circuit(1, maxq, 10, GATES[base]))
+    gset = GATES[base]
+    if base in ("sympy", "cirq") and draw(st.integers(0, 99)) < 20:
+        # gates outside the exporter's declared set: it may refuse them, but whatever it accepts must be right
+        # (one extra gate kind at a time, so that an accepted kind is not hidden behind a refused one)
+        gset = GATES[base] + [draw(st.sampled_from([g for g in GATES["qasm"] if g not in GATES[base]]))] * 3
+    circ = draw(gen_circ.general_circuit(1, maxq, 10, gset))
     if "MCTX" in GATES[base] and circ["n"] >= 2 and draw(st.integers(0, 9)) < 3:
         # both kinds of generic multi-controlled gates with the same number of controls in one circuit
         k = draw(st.integers(1, min(circ["n"] - 1, 3)))
@@ -63,11 +71,77 @@ def case(draw):
         pos = draw(st.integers(0, len(circ["gates"])))
         circ["gates"][pos:pos] = pair
     name = draw(st.sampled_from(["qc", "mygate", "h", "x", "f_1"]))
-    return {"kind": "circuit", "circ": circ, "name": name, "fw": fw, "mode": mode}
+    out = {"kind": "circuit", "circ": circ, "name": name, "fw": fw, "mode": mode}
+    if draw(st.integers(0, 99)) < 35:
+        # qubit-name table edited through the public mapping API (qc[name] = i, del qc[name]): aliases, default
+        # names pointing at other indices, qubits without any name
+        n = circ["n"]
+        pool = [f"q{i}" for i in range(n + 1)] + ["a", "b.0", "_ret", "anc_0"]
+        ops = []
+        for _ in range(draw(st.integers(1, 4))):
+            if draw(st.booleans()):
+                ops.append(["set", draw(st.sampled_from(pool)), draw(st.integers(0, n - 1))])
+            else:
+                ops.append(["del", draw(st.sampled_from(pool[:n]))])
+        out["name_ops"] = ops
+    return out
 
 
 def strategy(tier):
     return case()
+
+
+def enumerated_cases():
+    """every gate kind x every ordered choice of qubits on n = arity, arity+1 (<= 4) qubits, after a layer of H
+    (so that the exported state, the only thing the sympy circuit export shows, depends on the gate), for every target"""
+    import itertools
+
+    kinds = [("X", 1), ("Y", 1), ("Z", 1), ("H", 1), ("S", 1), ("T", 1), ("P", 1), ("CX", 2), ("CZ", 2), ("CP", 2), ("SWAP", 2), ("CCX", 3)]
+    kinds += [(k, a) for k in ("MCZ", "MCTX") for a in (2, 3, 4)] + [("MCX", 4)]
+    out = []
+    for fw, mode in TARGETS:
+        for nm, ar in kinds:
+            for n in sorted({ar, min(4, ar + 1)}):
+                for qs in itertools.permutations(range(n), ar):
+                    p = math.pi / 4 if nm in ("P", "CP") else None
+                    gates = [["H", [q], None] for q in range(n)] + [[nm, list(qs), p]]
+                    out.append({"kind": "circuit", "circ": {"n": n, "gates": gates}, "name": "qc", "fw": fw, "mode": mode})
+    return out
+
+
+def _run_enum(case):
+    import traceback
+
+    try:
+        return {"case": case, "res": judge(case)}
+    except Exception:
+        return {"case": case, "error": traceback.format_exc()}
+
+
+def exhaustive(tier, pool):
+    cases = enumerated_cases()
+    results = pool.map(_run_enum, cases, chunksize=8)
+    keys, viol, feats, samples = [], [], {}, []
+    for r in results:
+        if "error" in r:
+            raise RuntimeError("enumerated case crashed: " + r["error"] + "\n" + str(r["case"]))
+        res = r["res"]
+        c = r["case"]
+        tag = "single-gate:%s:%s" % (res["status"], c["fw"])
+        feats[tag] = feats.get(tag, 0) + 1
+        if res["status"] == "ok" and res.get("nontrivial"):
+            keys.append("enum:" + synth_key(c))
+            if len(samples) < 2 and c["circ"]["gates"][-1][0] in ("MCZ", "CP"):
+                samples.append(c)
+        if res["status"] == "violation" and res["kind"] not in [v[0] for v in viol]:
+            viol.append((res["kind"], c, res.get("detail")))
+    return {"evaluations": len(cases), "keys": keys, "samples": samples, "violations": viol, "features": feats, "exhaustive": False}
+
+
+def synth_key(c):
+    import json
+
+    return json.dumps([c["fw"], c["mode"], c["circ"]], sort_keys=True)
 
 
 def bitrev_perm(n):
@@ -140,6 +214,14 @@ def judge(case):  # noqa: C901
     else:
         qc = gen_circ.build(case["circ"], name=case["name"])
         descr = {"circuit": case["circ"], "name": case["name"]}
+        for op in case.get("name_ops", ()):
+            if op[0] == "set":
+                qc[op[1]] = op[2]
+            elif op[1] in qc:
+                del qc[op[1]]
+        if case.get("name_ops"):
+            feats.append("edited-names")
+            descr["qubit_map"] = dict(qc.qubit_map)
     n = qc.num_qubits
     if n > 7 or n < 1:
         return {"status": "skip", "nontrivial": False, "features": feats + ["too-many-qubits"]}
@@ -147,7 +229,7 @@ def judge(case):  # noqa: C901
     descr["gates"] = [s[:3] for s in sg][:40]
     Uref = sims.unitary(n, qc.gates)
     before = list(sg)
-    aliased = len(qc.qubit_map) != n
+    aliased = len(qc.qubit_map) != n or list(qc.qubit_map.items()) != [(f"q{i}", i) for i in range(n)]
     multi = any(s[1] >= 2 or s[3] is not None for s in sg)
     touched = set()
     for s in sg:
@@ -168,7 +250,11 @@ def judge(case):  # noqa: C901
         else:
             exp = qc.export(mode, base)
     except Exception as e:
+        if case["kind"] == "circuit" and base in GATES and any(g[0] not in GATES[base] for g in case["circ"]["gates"]):
+            return {"status": "rejected", "nontrivial": False, "features": feats + ["rejected-out-of-set-gate"]}
         return viol("export-raises", exc=repr(e)[:300])
+    if case["kind"] == "circuit" and base in GATES and any(g[0] not in GATES[base] for g in case["circ"]["gates"]):
+        feats.append("accepted-out-of-set-gate")
     if gen_circ.sigs(qc) != before:
         return viol("export-mutates-circuit")
 
@@ -177,6 +263,10 @@ def judge(case):  # noqa: C901
     except (sims.UnknownGate, ValueError, TypeError, KeyError, AttributeError, IndexError):
         raise
     except Exception as e:  # the exported object cannot be used (raises when interpreted by its own framework)
+        if "accepted-out-of-set-gate" in feats:
+            # a lazily built export (cirq gate class) refuses the gate when it is used
+            feats.remove("accepted-out-of-set-gate")
+            return {"status": "rejected", "nontrivial": False, "features": feats + ["rejected-out-of-set-gate"]}
         return viol("exported-object-raises", exc=repr(e)[:300])
 
 
